@@ -30,6 +30,7 @@ import (
 	"hash/crc32"
 	"os"
 	"os/exec"
+	"path/filepath"
 	"sort"
 	"strconv"
 	"strings"
@@ -973,6 +974,17 @@ func main() {
 	}
 	rng := xvlib.NewRng(args.Seed)
 
+	// ---- 0. corpus: minimal replays of repaired defects and findings run first, forever
+	if files, _ := filepath.Glob("corpus/" + args.Prop + "/*.ops"); len(files) > 0 {
+		sort.Strings(files)
+		for _, f := range files {
+			for _, l := range xvlib.ReadLines(f) {
+				run(l, true)
+			}
+			out.Count("corpus-file")
+		}
+	}
+
 	// ---- 1. CRC: Lean bit-serial model vs hash/crc32 (through p2p.Checksum)
 	for n := 0; n <= 64; n++ {
 		run("crc "+hexOrDash(make([]byte, n)), false)
@@ -1080,7 +1092,7 @@ func main() {
 		corPayloads = append(corPayloads, randBytes(rng, 20), randBytes(rng, 33), bytes.Repeat([]byte("xy"), 30))
 	}
 	polyPat := "1" // the generator polynomial itself, 33 bits: the shortest burst CRC-32 cannot see
-	for i := 31; i >= 0; i-- {
+	for i := 0; i < 32; i++ {
 		if crc32.IEEE>>uint(i)&1 == 1 {
 			polyPat += "1"
 		} else {
@@ -1157,6 +1169,18 @@ func main() {
 			}
 		}
 	}
+	// different messages whose header fields concatenate to the same text (the de-duplication key must tell them apart)
+	for _, pr := range [][2]string{
+		{"disp 3 ab c L 7", "disp 3 a bc L 7"},       // chain | sender
+		{"disp 3 xuper p1 L1 23", "disp 3 xuper p1 L12 3"}, // log id | checksum
+		{"disp 3 xuper p 1L 5", "disp 3 xuper p1 L 5"},    // sender | log id
+		{"disp 3 _RESx p L 5", "disp 6 x p L 5"},          // type name | chain (GET_BLOCK + _RESx = GET_BLOCK_RES + x)
+		{"disp 3 x - pL 5", "disp 3 x p L 5"},             // empty sender
+	} {
+		for _, l := range []string{"reset", "sub 1 3 - -", "sub 2 6 - -", "reg 1", "reg 2", pr[0], pr[1], pr[0]} {
+			run(l, false)
+		}
+	}
 	nSeq := 400
 	if thorough {
 		nSeq = 6000
@@ -1177,6 +1201,12 @@ func main() {
 		nops := 4 + r.Intn(14)
 		ticks := 0
 		var msgs []string
+		var poolTypes []int
+		for _, l := range ops[1:] {
+			var id, t int
+			fmt.Sscanf(l, "sub %d %d", &id, &t)
+			poolTypes = append(poolTypes, t)
+		}
 		for i := 0; i < nops; i++ {
 			switch x := r.Intn(20); {
 			case x < 6:
@@ -1193,7 +1223,11 @@ func main() {
 				if len(msgs) > 0 && r.Chance(1, 2) {
 					m = msgs[r.Intn(len(msgs))] // a repeat
 				} else {
-					m = fmt.Sprintf("disp %d %s %s L%d %d", typesU[r.Intn(len(typesU))], bcU[1+r.Intn(2)], fromU[r.Intn(3)], r.Intn(3), r.Intn(2))
+					t := typesU[r.Intn(len(typesU))]
+					if r.Chance(3, 4) {
+						t = poolTypes[r.Intn(len(poolTypes))]
+					}
+					m = fmt.Sprintf("disp %d %s %s L%d %d", t, bcU[1+r.Intn(2)], fromU[r.Intn(3)], r.Intn(3), r.Intn(2))
 					msgs = append(msgs, m)
 				}
 				if r.Chance(1, 12) {
